@@ -38,7 +38,7 @@ CONTROL = {
 
 CONTROL_QUICK = {
     "assign", "return", "raise", "raise-base", "yield", "yield-recv", "aug-yield", "break", "continue",
-    "if-else", "for", "for-else", "while", "while-else", "try-except", "try-finally", "with",
+    "if-else", "for", "for-else", "while", "while-else", "try-except", "try-finally", "with", "with-noas",
 }
 CTL_DRIVERS_QUICK = [
     ("next", "next", "next", "next"), ("next", "send", "next"), ("next", "throw"), ("next", "close"),
@@ -180,7 +180,9 @@ def check_case(prog, info, x, driver, part, record=True):
     if gp:
         return ("bracket-grammar", "; ".join(gp) + f" in {got!r}")
     # each of the exit-path meta variables probed alone (selective instrumentation of one name)
-    for single in ("#error", "#value", "#exit"):
+    # (for generators also #yield / #receive alone: a yield that is only rewritten when something else
+    # makes the statement around it instrumented goes unnoticed in the merged run)
+    for single in ("#error", "#value", "#exit") + (("#yield", "#receive") if info["is_gen"] else ()):
         alone = []
         obs1, ok1 = probe_merged(prog, info, [f"f > {single}"], x, driver, part, alone, names)
         if ok1 is None:
